@@ -341,6 +341,30 @@ fn run_ops(rng: &mut Rng, l: Limits, verb: &str, data: &[u8], drains: bool, out:
 
 pub fn enc_case(rng: &mut Rng, _idx: u64, thorough: bool) -> Vec<String> {
     let mut ops = Vec::new();
+    if rng.chance(1, 6) {
+        // `find_stuff_sequence` on its own: FE / FD runs, pairs at every position incl. the last two bytes
+        let n = match rng.below(4) {
+            0 => rng.range(0, 3),
+            1 => rng.range(3, 40),
+            2 => rng.range(60, 70),
+            _ => rng.range(0, 300),
+        } as usize;
+        let mut v: Vec<u8> = (0..n).map(|_| *rng.pick(&[0xFEu8, 0xFE, 0xFD, 0x00, 0xFF, 0x41])).collect();
+        if n >= 2 && rng.chance(1, 2) {
+            for b in v.iter_mut() {
+                if *b == 0xFD {
+                    *b = 0x42;
+                }
+            }
+            if rng.chance(2, 3) {
+                let r = rng.below(n as u64 - 1) as usize;
+                let at = (*rng.pick(&[0usize, n - 2, n / 2, r])).min(n - 2);
+                v[at] = 0xFE;
+                v[at + 1] = 0xFD;
+            }
+        }
+        ops.push(format!("find {}", to_hex(&v)));
+    }
     if rng.below(100) < 6 {
         let data = prod_payload(rng, thorough);
         let drains = rng.chance(2, 3);
